@@ -278,7 +278,7 @@ type c12Adapter struct {
 func (k *c12Adapter) bind(uint32) {}
 func (k *c12Adapter) packet(ssrc uint32, seq uint16, lost bool) {
 	h := c12Header(ssrc, seq, true, seq)
-	_ = k.fa.OnSent(time.Now(), h, len(c12Payload), interceptor.Attributes{0: uint8(1)})
+	_ = k.fa.OnSent(time.Now(), h, len(c12Payload), interceptor.Attributes{verifhooks.TwccExtensionAttributesKey: uint8(1)})
 	if !lost {
 		k.remote.Record(ssrc, seq, time.Since(k.env.start).Microseconds())
 	}
